@@ -164,3 +164,38 @@ pub fn find_sub(h: &[u8], n: &[u8]) -> Option<usize> {
 pub fn lower(s: &str) -> String {
     s.to_ascii_lowercase()
 }
+
+/// Wraps the connection future: a task that is polled `limit` times while the (paused) clock
+/// shows the same instant is spinning - it wakes itself without anything happening, so virtual
+/// time can never advance and the virtual deadline would never fire. The wrapper ends such a run
+/// with `Err`, which the engines report as a connection that never completed.
+pub struct PollBudget<F> {
+    fut: std::pin::Pin<Box<F>>,
+    last: tokio::time::Instant,
+    n: u64,
+    limit: u64,
+}
+
+impl<F: std::future::Future> PollBudget<F> {
+    pub fn new(fut: F, limit: u64) -> Self {
+        PollBudget { fut: Box::pin(fut), last: tokio::time::Instant::now(), n: 0, limit }
+    }
+}
+
+impl<F: std::future::Future> std::future::Future for PollBudget<F> {
+    type Output = Result<F::Output, String>;
+    fn poll(mut self: std::pin::Pin<&mut Self>, cx: &mut std::task::Context<'_>) -> std::task::Poll<Self::Output> {
+        let now = tokio::time::Instant::now();
+        if now != self.last {
+            self.last = now;
+            self.n = 0;
+        }
+        self.n += 1;
+        if self.n > self.limit {
+            return std::task::Poll::Ready(Err(format!("SPIN: the connection task was polled {} times at one virtual instant", self.limit)));
+        }
+        self.fut.as_mut().poll(cx).map(Ok)
+    }
+}
+
+pub const SPIN_LIMIT: u64 = 3_000_000;
